@@ -448,7 +448,19 @@ func runC20(r *Run) {
 			}
 		}
 	}
-	_ = base
+	// an empty user template switches a construct off: it replaces the default like any other template
+	for _, nm := range []string{"thematic_break", "emphasis", "image", "code_block", "strikethrough", "heading"} {
+		tag := map[string]string{"heading": "<h1", "emphasis": "<em", "image": "<img", "code_block": "<pre", "thematic_break": "<hr", "strikethrough": "<del"}[nm]
+		for _, empty := range []string{"", "\n", "<!-- off -->"} {
+			out, err := c20Vuego(doc, map[string]string{"markdown/" + nm + ".vuego": empty})
+			r.Eval("override-empty:"+nm, true, nil)
+			r.Count("class:override")
+			if err != nil || strings.Contains(out, tag) || !strings.Contains(base, tag) {
+				r.Fail("an empty user template in the content filesystem does not replace the default", map[string]string{"oracle": "md-override", "template": nm, "form": "empty"},
+					map[string]any{"template": nm, "override_text": empty, "output": out, "err": fmt.Sprint(err)})
+			}
+		}
+	}
 }
 
 // where two canonical dumps first differ, as a coarse class
